@@ -27,6 +27,9 @@ func narrowInt(t types.Type) bool {
 	return false
 }
 
+// noWrapScope, when set, restricts runNoWrapAs to the functions it accepts (a borrowing property's own decoders).
+var noWrapScope func(*ssa.Function) bool
+
 func runNoWrapAs(c *Ctx, P string) {
 	p := c.P
 	c.rule(P, "no-wrap", "growing arithmetic (+, *, <<) on a wire-decoded value in a type of <= 32 bits is dominated by an accepting bound test of the raw value", 1)
@@ -35,6 +38,9 @@ func runNoWrapAs(c *Ctx, P string) {
 	per := map[string]int{}
 	for _, fn := range p.SrcFuncs {
 		if fn.Pkg != p.Pkg {
+			continue
+		}
+		if noWrapScope != nil && !noWrapScope(fn) {
 			continue
 		}
 		for _, b := range fn.Blocks {
